@@ -202,7 +202,7 @@ def run(res, seed, tier):
     if not ok:
         res.violation("harness-build", "harness/f_api.c no longer compiles against the current tree (a modelled function changed its interface): " + txt[-1500:])
         return stats
-    rc, out, err = vlib.run_split([exe, str(seed), "1" if tier == "thorough" else "0"], timeout=(300 if tier == "thorough" else 60), env=vlib.clean_env())
+    rc, out, err = vlib.run_split([exe, str(seed), "1" if tier == "thorough" else "0"], timeout=(900 if tier == "thorough" else 300), env=vlib.clean_env())
     try: os.remove(exe)
     except OSError: pass
     lines = out.splitlines()
